@@ -91,9 +91,9 @@ pub fn run_once(cfg: &Cfg, progress: bool) -> Result<Vec<u64>, String> {
             }
         }
         Kind::Hmc32 => {
-            let target = StudentT { d: cfg.dim, nu: 5.0 };
+            let target = Quartic { d: cfg.dim };
             let inits: Vec<Vec<f32>> = cfg.inits.iter().map(|r| r.iter().map(|x| *x as f32).collect()).collect();
-            let mut s = HMC::<f32, B32, StudentT>::new(target, inits, 0.15, 3).set_seed(cfg.seed);
+            let mut s = HMC::<f32, B32, Quartic>::new(target, inits, 0.15, 3).set_seed(cfg.seed);
             if progress {
                 t3(s.run_progress(cfg.n_collect, cfg.n_discard).unwrap().0)
             } else {
